@@ -32,39 +32,61 @@ What is proved instead, all of it re-checked against the regenerated table on ev
 namespace Arc.C20
 
 /-- The property for one history: after `ops`, EVERY permission check — single or batched, whether it
-hits or misses either cache — returns what the policy gives on the tables as they are now. -/
-def Correct (mode : Mode) (ttl now0 : Int) (ops : List Op) : Prop :=
-  ∀ (k : Key) (ks : List Key),
-    (checkSingle (run (init mode ttl now0) ops) k).2.1 = policy (run (init mode ttl now0) ops).tb k ∧
-    (checkBatch (run (init mode ttl now0) ops) ks).2.map (·.1) = ks.map (policy (run (init mode ttl now0) ops).tb)
+hits or misses either cache, whatever a capacity eviction throws out (`orc`) — returns what the policy
+gives on the tables as they are now. `cap` is `MaxCacheSize` (each cache is bounded separately). -/
+def Correct (mode : Mode) (ttl now0 : Int) (cap : Nat) (ops : List Op) : Prop :=
+  ∀ (k : Key) (ks : List Key) (orc : List Victim),
+    (checkSingle (withOracle (run (init mode ttl now0 cap) ops) orc) k).2.1
+        = policy (run (init mode ttl now0 cap) ops).tb k ∧
+    (checkBatch (withOracle (run (init mode ttl now0 cap) ops) orc) ks).2.map (·.1)
+        = ks.map (policy (run (init mode ttl now0 cap) ops).tb)
 
 /-- **C20_partial.** Carve-out: the history uses only mutations whose generated invalidation is
-sufficient (`opOk`, a decidable predicate; checks, batches and clock advances are unrestricted).
-For ALL such histories, all ids / names / patterns / permissions / times, both modes. -/
-theorem C20_partial (mode : Mode) (ttl now0 : Int) (ops : List Op)
-    (hcarve : ∀ op ∈ ops, opOk mode op = true) : Correct mode ttl now0 ops := by
-  intro k ks
-  have hI : SInv (run (init mode ttl now0) ops) := run_inv ops _ (init_inv mode ttl now0) hcarve
-  exact ⟨(checkSingle_spec _ hI k).1, (checkBatch_spec ks _ hI).1⟩
+sufficient (`okRun`, a decidable predicate that follows the mode across a direct→cluster switch;
+checks, batches, clock advances, cache sweeps and capacity evictions are unrestricted).
+For ALL such histories, all ids / names / patterns / permissions / times / cache sizes, both modes. -/
+theorem C20_partial (mode : Mode) (ttl now0 : Int) (cap : Nat) (ops : List Op)
+    (hcarve : okRun mode ops = true) : Correct mode ttl now0 cap ops := by
+  intro k ks orc
+  have hI : SInv (run (init mode ttl now0 cap) ops) := run_inv ops _ (init_inv mode ttl now0 cap) hcarve
+  have hI' := withOracle_inv _ orc hI
+  exact ⟨(checkSingle_spec _ hI' k).1, (checkBatch_spec ks _ hI').1⟩
 
-theorem allPairs_complete (mode : Mode) (m : Method) : (mode, m) ∈ allPairs := by
-  cases mode <;> cases m <;> decide
+theorem allPairs_complete (mode : Mode) (m : Method) (hm : m ∈ Method.all) : (mode, m) ∈ allPairs := by
+  cases mode <;> simp [allPairs, hm]
 
-theorem sufficient_of_nil (h : insufficient = []) (mode : Mode) (m : Method) : sufficient mode m = true := by
+theorem sufficient_of_nil (h : insufficient = []) (p : Mode × Method) (hp : p ∈ allPairs) :
+    sufficient p.1 p.2 = true := by
   unfold insufficient at h
-  have := (List.filter_eq_nil_iff.1 h) (mode, m) (allPairs_complete mode m)
+  have := (List.filter_eq_nil_iff.1 h) p hp
   simpa using this
 
-/-- **C20_full.** The property at full strength — every history, every request — follows from the
-one finite fact `insufficient = []` about the regenerated invalidation table. -/
-theorem C20_full (hgen : insufficient = []) (mode : Mode) (ttl now0 : Int) (ops : List Op) :
-    Correct mode ttl now0 ops := by
-  apply C20_partial
-  intro op _
-  unfold opOk
-  cases op.method? with
-  | none => rfl
-  | some m => exact sufficient_of_nil hgen mode m
+theorem opOk_of_nil (h : insufficient = []) (mode : Mode) (op : Op) : opOk mode op = true := by
+  have base : ∀ m, m ∈ Method.all → sufficient mode m = true :=
+    fun m hm => sufficient_of_nil h (mode, m) (allPairs_complete mode m hm)
+  cases op
+  case applyCreateOrg =>
+    cases mode
+    · rfl
+    · simp only [opOk, Bool.and_eq_true]
+      exact ⟨⟨sufficient_of_nil h (.cluster, .createOrg) (by decide),
+              sufficient_of_nil h (.cluster, .applyOrgReplay) (by decide)⟩,
+             sufficient_of_nil h (.cluster, .applyOrgRealign) (by decide)⟩
+  all_goals first
+    | rfl
+    | exact base _ (by decide)
+
+theorem okRun_of_nil (h : insufficient = []) (ops : List Op) : ∀ mode, okRun mode ops = true := by
+  induction ops with
+  | nil => intro _; rfl
+  | cons op ops ih => intro mode; simp [okRun, opOk_of_nil h mode op, ih]
+
+/-- **C20_full.** The property at full strength — every history, every request, every cache size and
+eviction choice — follows from the one finite fact `insufficient = []` about the regenerated facts
+(invalidation table + per-cache structure of the two invalidators). -/
+theorem C20_full (hgen : insufficient = []) (mode : Mode) (ttl now0 : Int) (cap : Nat) (ops : List Op) :
+    Correct mode ttl now0 cap ops :=
+  C20_partial mode ttl now0 cap ops (okRun_of_nil hgen ops mode)
 
 /-! ## witnesses -/
 
@@ -73,6 +95,7 @@ def pRead : Str := ['r', 'e', 'a', 'd']
 def pWrite : Str := ['w', 'r', 'i', 't', 'e']
 def kRead : Key := ⟨1, kDb, [], pRead⟩
 def kMeas : Key := ⟨1, kDb, ['m'], pRead⟩
+def kMeas2 : Key := ⟨1, kDb, ['n'], pRead⟩
 
 /-- token 1 in team 1 of org 1 holding role 1 (`*`: read). No check yet: both caches are empty, so
 the witnesses below do not depend on the invalidation of their own set-up steps. -/
@@ -81,47 +104,72 @@ def grantSetup : List Op :=
    .addMem 1 1 1]
 
 /-- … and the decision for `kRead` (allow, via RBAC) is cached -/
-def grantBase : List Op := grantSetup ++ [.check kRead]
+def grantBase : List Op := grantSetup ++ [.check kRead []]
 
-/-- a short history ending in mutation `m`, and a request whose cached decision `m` must invalidate -/
-def witness : Method → List Op × Key
-  | .deleteOrg => (grantBase ++ [.deleteOrg 1], kRead)
-  | .updateTeam => (grantBase ++ [.updateTeam 1 none (some false)], kRead)
-  | .deleteTeam => (grantBase ++ [.deleteTeam 1], kRead)
-  | .createRole => ([.createToken ['k'] [] 1, .createOrg ['o'] 1, .createTeam 1 ['t'] 1, .addMem 1 1 1,
-                     .check kRead, .createRole 1 ['*'] [pRead] 1], kRead)
-  | .updateRole => (grantBase ++ [.updateRole 1 none [pWrite]], kRead)
-  | .deleteRole => (grantBase ++ [.deleteRole 1], kRead)
-  | .createMP => (grantSetup ++ [.check kMeas, .createMP 1 ['z'] [pRead] 1], kMeas)
-  | .deleteMP => (grantSetup ++ [.createMP 1 ['z'] [pRead] 1, .check kMeas, .deleteMP 1], kMeas)
-  | .addMem => ([.createToken ['k'] [] 1, .createOrg ['o'] 1, .createTeam 1 ['t'] 1, .createRole 1 ['*'] [pRead] 1,
-                 .check kRead, .addMem 1 1 1], kRead)
-  | .removeMem => (grantBase ++ [.removeMem 1 1], kRead)
-  | .updateToken => ([.createToken ['k'] [pRead] 1, .check kRead, .updateToken 1 []], kRead)
-  | _ => ([], kRead)   -- neutral / token-gone mutations need no invalidation at all
+/-- the caches are swept independently: token data loaded at t=0, a second decision computed from it
+at t=10; at t=31 the sweep drops the data (age 31 > 30) but keeps that decision (expires at 40) -/
+def dataGoneDecisionStays : List Op :=
+  [.check kRead [], .advance 10, .check kMeas [], .advance 21, .cleanup]
+
+def noGrantSetup : List Op :=
+  [.createToken ['k'] [] 1, .createOrg ['o'] 1, .createTeam 1 ['t'] 1, .createRole 1 ['*'] [pRead] 1]
+
+/-- candidate counterexamples for mutation `m`: (start mode, history ending in `m`, request).
+Several per method, because WHAT is missing may be the call (`none`), the permission-cache scan
+(guarded by "token data cached"), or the data-cache half of an invalidator. -/
+def witnesses (mode : Mode) : Method → List (Mode × List Op × Key)
+  | .deleteOrg => [(mode, grantBase ++ [.deleteOrg 1], kRead), (mode, grantBase ++ [.deleteOrg 1], kMeas)]
+  | .updateTeam => [(mode, grantBase ++ [.updateTeam 1 none (some false)], kRead),
+                    (mode, grantBase ++ [.updateTeam 1 none (some false)], kMeas)]
+  | .deleteTeam => [(mode, grantBase ++ [.deleteTeam 1], kRead), (mode, grantBase ++ [.deleteTeam 1], kMeas)]
+  | .createRole => [(mode, [.createToken ['k'] [] 1, .createOrg ['o'] 1, .createTeam 1 ['t'] 1, .addMem 1 1 1,
+                            .check kRead [], .createRole 1 ['*'] [pRead] 1], kRead),
+                    (mode, [.createToken ['k'] [] 1, .createOrg ['o'] 1, .createTeam 1 ['t'] 1, .addMem 1 1 1,
+                            .check kRead [], .createRole 1 ['*'] [pRead] 1], kMeas)]
+  | .updateRole => [(mode, grantBase ++ [.updateRole 1 none [pWrite]], kRead),
+                    (mode, grantBase ++ [.updateRole 1 none [pWrite]], kMeas)]
+  | .deleteRole => [(mode, grantBase ++ [.deleteRole 1], kRead), (mode, grantBase ++ [.deleteRole 1], kMeas)]
+  | .createMP => [(mode, grantSetup ++ [.check kMeas [], .createMP 1 ['z'] [pRead] 1], kMeas),
+                  (mode, grantSetup ++ [.check kMeas [], .createMP 1 ['z'] [pRead] 1], kMeas2)]
+  | .deleteMP => [(mode, grantSetup ++ [.createMP 1 ['z'] [pRead] 1, .check kMeas [], .deleteMP 1], kMeas),
+                  (mode, grantSetup ++ [.createMP 1 ['z'] [pRead] 1, .check kMeas [], .deleteMP 1], kMeas2)]
+  | .addMem => [(mode, noGrantSetup ++ [.check kRead [], .addMem 1 1 1], kRead),
+                (mode, noGrantSetup ++ dataGoneDecisionStays ++ [.addMem 1 1 1], kMeas),
+                (mode, noGrantSetup ++ [.check kRead [], .addMem 1 1 1], kMeas)]
+  | .removeMem => [(mode, grantBase ++ [.removeMem 1 1], kRead),
+                   (mode, grantSetup ++ dataGoneDecisionStays ++ [.removeMem 1 1], kMeas),
+                   (mode, grantBase ++ [.removeMem 1 1], kMeas)]
+  | .updateToken => [(mode, [.createToken ['k'] [pRead] 1, .check kRead [], .updateToken 1 []], kRead),
+                     (mode, [.createToken ['k'] [pRead] 1] ++ dataGoneDecisionStays ++ [.updateToken 1 []], kMeas)]
+  -- a standalone node with a granting chain joins the cluster; the CreateOrganization apply for its own
+  -- organization collides by name, the local row is deleted (cascade) and re-inserted under id 1000
+  | .applyOrgRealign => [(.direct, grantBase ++ [.toCluster, .applyCreateOrg ['o'] 1000], kRead),
+                         (.direct, grantBase ++ [.toCluster, .applyCreateOrg ['o'] 1000], kMeas)]
+  | _ => []   -- neutral / token-gone mutations need no invalidation at all
 
 /-- after the witness history the very next check returns a decision the policy does not give -/
-def staleAfter (mode : Mode) (m : Method) : Bool :=
-  let s := run (init mode 30 0) (witness m).1
-  decide ((checkSingle s (witness m).2).2.1 ≠ policy s.tb (witness m).2)
+def staleRun (w : Mode × List Op × Key) : Bool :=
+  let s := run (init w.1 30 0) w.2.1
+  decide ((checkSingle s w.2.2).2.1 ≠ policy s.tb w.2.2)
 
-/-- The statement that is checked on every run, computed from the regenerated table. -/
+def staleAfter (mode : Mode) (m : Method) : Bool := (witnesses mode m).any staleRun
+
+/-- The statement that is checked on every run, computed from the regenerated facts. -/
 def CurrentStatement : Prop :=
-  if insufficient = [] then ∀ mode ttl now0 ops, Correct mode ttl now0 ops
+  if insufficient = [] then ∀ mode ttl now0 cap ops, Correct mode ttl now0 cap ops
   else ∀ p ∈ insufficient, staleAfter p.1 p.2 = true
 
-/-- **C20_current.** With a sufficient table this *is* the unconditional full theorem; with the
-current table it says that each insufficient (mode, mutation) pair really produces a stale decision
-in the model (which the harness reproduces on the real code). -/
+/-- **C20_current.** With sufficient facts this *is* the unconditional full theorem; otherwise it says
+that each insufficient (mode, mutation) pair really produces a stale decision in the model (which the
+harness reproduces on the real code). -/
 theorem C20_current : CurrentStatement := by
   unfold CurrentStatement
   split
-  · rename_i h; exact fun mode ttl now0 ops => C20_full h mode ttl now0 ops
+  · rename_i h; exact fun mode ttl now0 cap ops => C20_full h mode ttl now0 cap ops
   · decide
 
-/-- `covers` asks for nothing superfluous: whenever a mutation that is NOT neutral/token-gone lacks the
-invalidation its class demands, the witness history is stale. (Checked for the gaps of the current
-table; `C20_current` re-checks it for whatever the table lacks on a later run.) -/
+/-- the findings of round 1 (repaired in d428cab / 62ca961), kept as guarded witnesses: should the
+invalidation disappear again, these are the counterexamples -/
 theorem C20_witness_deleteOrg :
     (Mode.direct, Method.deleteOrg) ∈ insufficient → staleAfter .direct .deleteOrg = true := by decide
 
@@ -131,16 +179,18 @@ theorem C20_witness_updateToken_direct :
 theorem C20_witness_updateToken_cluster :
     (Mode.cluster, Method.updateToken) ∈ insufficient → staleAfter .cluster .updateToken = true := by decide
 
-/-- the stale decisions, spelled out (guarded so that they stay true after a repair) -/
-theorem C20_witness_deleteOrg_values :
-    invOf .direct .deleteOrg = .none →
-      let s := run (init .direct 30 0) (grantBase ++ [.deleteOrg 1])
-      (checkSingle s kRead).2.1 = ⟨true, .rbac⟩ ∧ policy s.tb kRead = ⟨false, .denied⟩ := by decide
+/-- the two caches really are independent in the model: after `dataGoneDecisionStays` the token's data
+is gone while one of its decisions is still cached (so an invalidator that skips the permission cache
+"because the token has no loaded data" is wrong) -/
+theorem C20_caches_independent :
+    let s := run (init .direct 30 0) (grantSetup ++ dataGoneDecisionStays)
+    s.tokCache = [] ∧ s.permCache.map (·.1) = [kMeas] := by decide
 
-theorem C20_witness_updateToken_values :
-    invOf .direct .updateToken = .none →
-      let s := run (init .direct 30 0) [.createToken ['k'] [pRead] 1, .check kRead, .updateToken 1 []]
-      (checkSingle s kRead).2.1 = ⟨true, .token⟩ ∧ policy s.tb kRead = ⟨false, .denied⟩ := by decide
+/-- the re-align path cascades: after it nothing grants access any more -/
+theorem C20_realign_cascades :
+    let s := run (init .direct 30 0) (grantBase ++ [.toCluster, .applyCreateOrg ['o'] 1000])
+    s.tb.orgs.map (·.id) = [1000] ∧ s.tb.teams = [] ∧ s.tb.roles = [] ∧ s.tb.mems = [] ∧
+    policy s.tb kRead = ⟨false, .denied⟩ := by decide
 
 /-! ## ties to the regenerated table -/
 
@@ -152,27 +202,43 @@ theorem C20_table_complete :
 /-- the table has no rows the model does not know (a new mutating method must be modelled) -/
 theorem C20_table_no_extra : Arc.Generated.C20.invalidation.length = allPairs.length := by decide
 
-/-- cluster-apply mode: every RBAC materialiser (`Apply*` of cluster_rbac_apply.go) is sufficient -/
+/-- cluster-apply mode: every RBAC materialiser (`Apply*` of cluster_rbac_apply.go) is sufficient,
+including the log-replay and the re-align (name collision, cascading) paths of ApplyCreateOrganization -/
 theorem C20_cluster_rbac_sufficient :
     ∀ m ∈ [Method.createOrg, .updateOrg, .deleteOrg, .createTeam, .updateTeam, .deleteTeam, .createRole,
-           .updateRole, .deleteRole, .createMP, .deleteMP, .addMem, .removeMem],
+           .updateRole, .deleteRole, .createMP, .deleteMP, .addMem, .removeMem, .applyOrgReplay, .applyOrgRealign],
       sufficient .cluster m = true := by decide
+
+/-- both invalidators of the current source clear BOTH caches unconditionally (generated structure
+facts: InvalidateTokenCache drops the data entry and always scans the permission cache;
+InvalidateAllCache replaces both maps) -/
+theorem C20_invalidators_strong : strong .token = true ∧ strong .all = true := by decide
 
 /-! ## non-vacuity -/
 
 /-- `C20_partial`'s carve-out is satisfiable by a non-trivial history: a grant through team/role, a
 cached RBAC allow, a team disable (sufficient: invalidates all), clock across the TTL, batch. -/
 example :
-    let ops : List Op := grantBase ++ [.check kRead, .updateTeam 1 none (some false), .advance 31, .batch [kRead, kMeas]]
-    (∀ op ∈ ops, opOk .cluster op = true) ∧ (∀ op ∈ ops, opOk .direct op = true) ∧
+    let ops : List Op := grantBase ++ [.check kRead [], .updateTeam 1 none (some false), .advance 31, .cleanup,
+                                     .batch [kRead, kMeas] [], .toCluster, .applyCreateOrg ['o'] 1000]
+    okRun .cluster ops = true ∧ okRun .direct ops = true ∧
     (checkSingle (run (init .direct 30 0) grantBase) kRead).2 = (⟨true, .rbac⟩, true) ∧
     (checkSingle (run (init .direct 30 0) ops) kRead).2.1 = ⟨false, .denied⟩ := by decide
+
+/-- capacity eviction in action: 1-entry caches, the second token's check throws the first token's data
+and decision out (named by the oracle), and the oracle is consumed -/
+example :
+    let ops : List Op := [.createToken ['k'] [pRead] 1, .createToken ['j'] [pRead] 2, .check kRead []]
+    let s := run (init .direct 30 0 1) ops
+    let r := checkSingle (withOracle s [.tok 1, .perm kRead]) ⟨2, kDb, [], pRead⟩
+    oracleUsedUp r.1 = true ∧ r.1.tokCache.map (·.1) = [2] ∧ r.1.permCache.length = 1 ∧
+    r.2.1 = ⟨true, .token⟩ := by decide
 
 /-- … and unconditionally (these ops need no invalidation whatever the table says): a token with own
 permissions, a cached allow, revocation ⇒ the next check is `unauth`; the caches still hold the entry. -/
 example :
-    let ops : List Op := [.createToken ['k'] [pRead] 1, .createOrg ['o'] 1, .createTeam 1 ['t'] 1, .check kRead,
-                          .rotateToken 1, .check kRead, .revokeToken 1]
+    let ops : List Op := [.createToken ['k'] [pRead] 1, .createOrg ['o'] 1, .createTeam 1 ['t'] 1, .check kRead [],
+                          .rotateToken 1, .check kRead [], .revokeToken 1]
     (∀ mode, ∀ op ∈ ops, opOk mode op = true) ∧
     (checkSingle (run (init .direct 30 0) (ops.take 5)) kRead).2 = (⟨true, .token⟩, true) ∧
     (checkSingle (run (init .direct 30 0) ops) kRead).2.1 = ⟨false, .unauth⟩ ∧
